@@ -9,6 +9,7 @@ from gvsim.sim import Raised, Sim
 
 PROP = 'C09'
 TIERS = {'quick': {'runs': 2400, 'wall': 100}, 'thorough': {'runs': 60000, 'wall': 1500}}
+REACH = ['pick', 'drop', 'swap', 'box_opened', 'box_opened_nested', 'obstacle_moved', 'pick_off_top', 'pick_off_left', 'pick_refused_Door', 'knob:near_duplicate_states']  # probes / faults that must fire in every batch (reach gaps are reported in the evidence)
 RULE = ('one run = one client (random composition with pickndrop / move_obstacles / actuate_box biased in, worlds '
         'rich in keys, nested boxes, obstacles; or the shipped key-door / obstacle configurations) under a seeded op '
         'list; distinct = executed-trace digest; non-trivial = >=10 ops and at least one pick/drop/swap/box-opening/'
